@@ -148,10 +148,12 @@ def run_case(case):
                    lambda F, R: refmodel.rename_fields(F, R, mapping, regex, legacy=True))
         desc_cfg = {'mapping': mapping, 'regex': regex}
     elif fam == 'add_field':
-        kind = rng.choice(['const', 'none', 'callable', 'options'])
+        kind = rng.choice(['const', 'none', 'callable', 'options', 'mutable_list', 'mutable_dict'])
         covc['add_field/' + kind] = 1
-        default = {'const': 5, 'none': None, 'callable': plus7, 'options': 'k'}[kind]
-        typ = {'const': 'integer', 'none': 'string', 'callable': 'integer', 'options': 'string'}[kind]
+        default = {'const': 5, 'none': None, 'callable': plus7, 'options': 'k', 'mutable_list': [],
+                   'mutable_dict': {'k': [1]}}[kind]
+        typ = {'const': 'integer', 'none': 'string', 'callable': 'integer', 'options': 'string',
+               'mutable_list': 'array', 'mutable_dict': 'object'}[kind]
         opts = {'title': 'T', 'constraints': {'required': False}} if kind == 'options' else {}
         step = d.add_field('NEWF', typ, default, resources=copy.deepcopy(selector), **opts)
         spec = [{'target': dict({'name': 'NEWF', 'type': typ}, **opts),
@@ -290,6 +292,18 @@ def run_case(case):
                         except Exception:
                             diffs.append('%s: computed field %r declared %s holds %r' % (rn, gf['name'], gf.get('type'), v_))
                             break
+            # two rows must never hold the SAME mutable object (an in-place edit on one row would change the other)
+            seen_ids = {}
+            for r_ in grows:
+                for k_, v_ in r_.items():
+                    if isinstance(v_, (list, dict)):
+                        if id(v_) in seen_ids and seen_ids[id(v_)] is not r_:
+                            diffs.append('%s: rows share one %s object in field %r' % (rn, type(v_).__name__, k_))
+                            break
+                        seen_ids[id(v_)] = r_
+                else:
+                    continue
+                break
             fn = set(f['name'] for f in F)
             bad = [r for r in grows if set(r) != fn]
             if bad and len(R) == len(grows):
